@@ -393,6 +393,9 @@ def evenPower (eq power prefactor : Float) : Hat :=
 /-- C `potential` -/
 def cbPotential (pp sx sy sz : Float) : Float := pp / (sx * sx + sy * sy + sz * sz).sqrt
 
+/-- C `non_negative`: zero for a rounding-negative value, a nan is returned unchanged -/
+def cbNonNeg (x : Float) : Float := if x < 0.0 then 0.0 else x
+
 /-- C `displacement` (no exceptions in C: NaN/inf propagate).  Returns the value and notes comparisons. -/
 def cbDisplacementC (pp sx₀ sy sz dE₀ L : Float) : M Float := do
   let half := L / 2.0
@@ -401,10 +404,9 @@ def cbDisplacementC (pp sx₀ sy sz dE₀ L : Float) : M Float := do
   let pot0 := cbPotential pp 0.0 sy sz
   let potHalf := cbPotential pp half sy sz
   let perL := (pot0 - potHalf).abs
-  let q := dE₀ / perL
-  note q q.round   -- `floor` is discontinuous at integers
-  let mut disp := q.floor * L
+  -- number of complete trips derived from the exact remainder (`round((dE - fmod(dE, c)) / c)`)
   let mut dE := JF.ffmod dE₀ perL
+  let mut disp := ((dE₀ - dE) / perL).round * L
   note pp 0.0
   if pp > 0.0 then
     note sx 0.0
@@ -420,7 +422,7 @@ def cbDisplacementC (pp sx₀ sy sz dE₀ L : Float) : M Float := do
         sx := half
         cur := potHalf
     let nn := pp / (cur + dE)
-    disp := disp + (sx - (nn * nn - (sy * sy + sz * sz)).sqrt)
+    disp := disp + (sx - (cbNonNeg (nn * nn - (sy * sy + sz * sz))).sqrt)
   else
     note sx 0.0
     if sx > 0.0 then
@@ -435,7 +437,7 @@ def cbDisplacementC (pp sx₀ sy sz dE₀ L : Float) : M Float := do
         sx := 0.0
         cur := pot0
     let nn := pp / (cur + dE)
-    disp := disp + (sx + (nn * nn - (sy * sy + sz * sz)).sqrt)
+    disp := disp + (sx + (cbNonNeg (nn * nn - (sy * sy + sz * sz))).sqrt)
   return disp
 
 /-- `InversePowerCoulombBoundingPotential.displacement` (Python wrapper + C) -/
